@@ -490,7 +490,7 @@ pub fn run_chunk(drv: &str, tmpdir: &str, cases: &[Case]) -> Stats {
     for (ci, c) in cases.iter().enumerate() {
         st.cases += 1;
         st.tags.insert(c.tag.clone());
-        let first_s = c.cmds.iter().find_map(|x| if let Cmd::S(s) = x { Some(&**s) } else { None });
+        let first_s = c.cmds.iter().find_map(|x| match x { Cmd::S(s) | Cmd::SN(s) | Cmd::SR(s) => Some(&**s), _ => None });
         let flat: Vec<String> = ran[ci].lines.iter().flatten().map(|x| x.1.clone()).collect();
         let script = || ran[ci].lines.iter().flatten().map(|x| x.0.clone()).collect::<Vec<_>>().join("\n");
         if nontrivial(first_s, &flat) {
